@@ -3,11 +3,12 @@ package main
 import (
 	"context"
 	"encoding/json"
-	"os/exec"
 	"flag"
 	"fmt"
 	"os"
+	"os/exec"
 	"path/filepath"
+	"regexp"
 	"sort"
 	"strconv"
 	"strings"
@@ -115,7 +116,7 @@ func cmdCheck(args []string) int {
 	evidence := fs.String("evidence", "", "evidence file to write")
 	known := fs.String("known", "/verif/known_findings.json", "known findings file")
 	replayDir := fs.String("replay", "/verif/replay", "replay dir")
-	only := fs.String("only", "", "only functions whose name contains this")
+	only := fs.String("only", "", "only functions whose name matches this regular expression")
 	verbose := fs.Bool("v", false, "verbose")
 	dump := fs.String("dump", "", "dump SMT of obligations whose name contains this to stdout")
 	counts := fs.String("counts", "/verif/spec/expected_counts.json", "expected obligation counts")
@@ -142,7 +143,7 @@ func cmdCheck(args []string) int {
 		if ct.Trusted || !hasProp(ct.Props, *prop) {
 			continue
 		}
-		if *only != "" && !strings.Contains(k, *only) {
+		if *only != "" && !onlyMatch(*only, k) {
 			continue
 		}
 		cts = append(cts, ct)
@@ -155,7 +156,7 @@ func cmdCheck(args []string) int {
 		obls = append(obls, r.Obls...)
 	}
 	for _, ax := range g.db.Axioms {
-		if ax.Lemma && hasProp(ax.Props, *prop) && (*only == "" || strings.Contains(ax.Name, *only)) {
+		if ax.Lemma && hasProp(ax.Props, *prop) && (*only == "" || onlyMatch(*only, ax.Name)) {
 			obls = append(obls, g.VerifyLemma(ax))
 		}
 	}
@@ -468,21 +469,21 @@ func writeEvidence(path, prop, tier string, seed int, g *Gen, results []*FuncRes
 		"seed":        seed,
 		"level":       "proof",
 		"coverage": map[string]interface{}{
-			"obligations":     total,
-			"discharged":      discharged,
-			"checker_cmd":     "govc check -prop " + prop + " -tier " + tier + " (go/ssa weakest-precondition VCs from /repo's working tree, discharged by z3 4.8.12 | z3 5.1.0 | cvc5 1.0 raced)",
-			"trusted_base":    []string{"govc VC generator", "go/ssa (x/tools v0.29.0)", "z3 4.8.12", "z3 5.1.0 (z3-new)", "cvc5 1.0", "axioms in /verif/spec/*.gvc: " + strings.Join(usedAx, ", "), "trusted (assumed) contracts: " + strings.Join(trustedContracts, ", ")},
-			"functions":       funcs,
-			"by_solver":       bySolver,
-			"solver_time_s":   solverTime,
-			"by_kind":         kinds,
-			"cover_guards":    covers,
-			"inlined":         sortedKeys(inl),
-			"bounded":         bounded,
-			"known_findings":  kfs,
-			"samples":         samples,
-			"axioms_assumed":  usedAx,
-			"contract_files":  g.db.Files,
+			"obligations":    total,
+			"discharged":     discharged,
+			"checker_cmd":    "govc check -prop " + prop + " -tier " + tier + " (go/ssa weakest-precondition VCs from /repo's working tree, discharged by z3 4.8.12 | z3 5.1.0 | cvc5 1.0 raced)",
+			"trusted_base":   []string{"govc VC generator", "go/ssa (x/tools v0.29.0)", "z3 4.8.12", "z3 5.1.0 (z3-new)", "cvc5 1.0", "axioms in /verif/spec/*.gvc: " + strings.Join(usedAx, ", "), "trusted (assumed) contracts: " + strings.Join(trustedContracts, ", ")},
+			"functions":      funcs,
+			"by_solver":      bySolver,
+			"solver_time_s":  solverTime,
+			"by_kind":        kinds,
+			"cover_guards":   covers,
+			"inlined":        sortedKeys(inl),
+			"bounded":        bounded,
+			"known_findings": kfs,
+			"samples":        samples,
+			"axioms_assumed": usedAx,
+			"contract_files": g.db.Files,
 		},
 		"assumptions": assumptions,
 		"wall_s":      wall,
@@ -491,4 +492,12 @@ func writeEvidence(path, prop, tier string, seed int, g *Gen, results []*FuncRes
 	data, _ := json.MarshalIndent(ev, "", " ")
 	os.MkdirAll(filepath.Dir(path), 0o755)
 	os.WriteFile(path, append(data, '\n'), 0o644)
+}
+
+func onlyMatch(pat, name string) bool {
+	re, err := regexp.Compile(pat)
+	if err != nil {
+		return strings.Contains(name, pat)
+	}
+	return re.MatchString(name)
 }
